@@ -375,6 +375,42 @@ pub broadcast proof fn lemma_msg_word_type(size: i32)
     assert(((size & 0xfi32) as u32) == (size as u32) % 16u32) by (bit_vector);
     lemma_i32_as_u32(size);
 }
+/// nibble / bit-field packing used by the compact protocol headers
+pub broadcast proof fn lemma_shl4_u8(d: u8)
+    ensures d < 16 ==> (#[trigger] (d << 4u8)) == d * 16
+{ assert(d < 16u8 ==> (d << 4u8) == d * 16u8) by (bit_vector); }
+pub broadcast proof fn lemma_shl4_i32(x: i32)
+    ensures 0 <= x < 16 ==> (#[trigger] (x << 4i32)) == x * 16
+{ assert(0i32 <= x && x < 16i32 ==> (x << 4i32) == x * 16i32) by (bit_vector); }
+pub broadcast proof fn lemma_or_low_nibble(a: u8, c: u8)
+    ensures (a % 16 == 0 && c < 16) ==> (#[trigger] (a | c)) == a + c
+{ assert((a % 16u8 == 0u8 && c < 16u8) ==> (a | c) == a + c) by (bit_vector); }
+pub broadcast proof fn lemma_and_0f(h: u8)
+    ensures (#[trigger] (h & 0x0fu8)) == h % 16
+{ assert((h & 0x0fu8) == h % 16u8) by (bit_vector); }
+pub broadcast proof fn lemma_and_f0(h: u8)
+    ensures (#[trigger] (h & 0xf0u8)) == (h / 16) * 16, ((h & 0xf0u8) >> 4u8) == h / 16
+{ assert((h & 0xf0u8) == (h / 16u8) * 16u8) by (bit_vector); assert(((h & 0xf0u8) >> 4u8) == h / 16u8) by (bit_vector); }
+pub broadcast proof fn lemma_and_1f(h: u8)
+    ensures (#[trigger] (h & 0x1fu8)) == h % 32
+{ assert((h & 0x1fu8) == h % 32u8) by (bit_vector); }
+pub broadcast proof fn lemma_and_e0(h: u8)
+    ensures (#[trigger] (h & 0xe0u8)) == (h / 32) * 32
+{ assert((h & 0xe0u8) == (h / 32u8) * 32u8) by (bit_vector); }
+pub broadcast proof fn lemma_shr5(h: u8)
+    ensures (#[trigger] (h >> 5u8)) == h / 32
+{ assert((h >> 5u8) == h / 32u8) by (bit_vector); }
+pub broadcast proof fn lemma_shl5(m: u8)
+    ensures m < 8 ==> (#[trigger] (m << 5u8)) == m * 32
+{ assert(m < 8u8 ==> (m << 5u8) == m * 32u8) by (bit_vector); }
+pub broadcast proof fn lemma_or_low5(a: u8, c: u8)
+    ensures (c % 32 == 0 && a < 32) ==> (#[trigger] (a | c)) == a + c
+{ assert((c % 32u8 == 0u8 && a < 32u8) ==> (a | c) == a + c) by (bit_vector); }
+pub broadcast proof fn lemma_and_msb(b: u8)
+    ensures ((#[trigger] (b & 0x80u8)) == 0) <==> b < 128
+{ assert(((b & 0x80u8) == 0u8) <==> b < 128u8) by (bit_vector); }
+pub broadcast group group_bits { lemma_shl4_u8, lemma_shl4_i32, lemma_or_low_nibble, lemma_and_0f, lemma_and_f0, lemma_and_1f, lemma_and_e0,
+    lemma_shr5, lemma_shl5, lemma_or_low5, lemma_and_msb }
 /// core: `impl<T> From<T> for Option<T>` and `impl<T> From<T> for T` (A5, assumed)
 pub broadcast axiom fn axiom_into_option<T>(x: T)
     ensures #[trigger] <T as IntoSpec<Option<T>>>::into_spec(x) == Some(x);
